@@ -90,6 +90,31 @@ func checkC02(c c02Case) (ci caseInfo, err error) {
 		if len(got) != 0 {
 			return ci, fmt.Errorf("incomplete message (%s) %q encodes to %d bytes (%s), want the empty byte string", incomplete, msg.Header(), len(got), hexPrefix(got, 24))
 		}
+		// history: the same message, already encoded once while incomplete, is now completed and must encode
+		// exactly like the reference (nothing remembered from the earlier, empty, encoding)
+		if c.Tree == nil || len(ellipsisNames(c.Tree.Variables())) == 0 {
+			var full *model.Node
+			fill := map[string]interface{}{}
+			if c.Tree != nil {
+				binds := singleFills(c.Tree)
+				fill = assignMap(binds, c.Variant)
+				full, _ = substModel(c.Tree, bindMap(binds))
+			}
+			hc := h
+			hc.Wait = boolToWait(h.Wait == 1)
+			if hc.Session == -1 {
+				hc.Session = 513
+			}
+			done := completeMessage(msg, hc, fill, c.Variant)
+			want, _, rerr := model.RefEncodeMsg(modelMsg(hc, full), nil)
+			if rerr != nil {
+				return ci, fmt.Errorf("harness: %v", rerr)
+			}
+			if got := done.ToBytes(); !bytes.Equal(got, want) {
+				return ci, fmt.Errorf("message %q completed after having been encoded while incomplete (%s): %s", msg.Header(), incomplete, firstDiff(got, want))
+			}
+			ci.label("msg:completed-after-incomplete-encoding")
+		}
 		return ci, nil
 	}
 	want, _, rerr := model.RefEncodeMsg(modelMsg(h, c.Tree), nil)
